@@ -48,8 +48,14 @@ def retry_loop_rule(ck, u, eng, fname, paths, base_param, total_param):
     total = ('v', total_param)
     iters = [p for p in paths if p.loops and (p.end == 'loopback' or (p.end == 'return' and transfer_calls(p)))]
     exits = [p for p in paths if p.end == 'return' and p.loops and not transfer_calls(p)]
-    if not iters or not exits:
+    if not any(p.loops for p in paths):
         return ck.broken('C17.b', fname, where, 'no retry loop recognised')
+    if not iters:
+        return ck.violation('C17.b', fname + ':never-runs', where,
+                            'the transfer loop can never be entered (its condition is false for every count): the function reports %s octets moved without calling the driver' % total_param)
+    if not exits:
+        return ck.violation('C17.a', fname + ':complete', where,
+                            'the transfer loop has no exit for a completed request: after the last octet the driver is called again with nothing left to move')
     nprog = nretry = nerr = 0
     for p in iters:
         tc = transfer_calls(p)
@@ -62,7 +68,11 @@ def retry_loop_rule(ck, u, eng, fname, paths, base_param, total_param):
         # remaining counter = loop-carried variable with a pre-loop value equal to total
         rem = [k for k, (h, pre) in lmap.items() if pre == total]
         if len(rem) != 1:
-            ck.broken('C17.b', fname + ':counter', where, 'cannot identify the remaining-count variable')
+            if not lmap:
+                ck.violation('C17.c', fname + ':progress', where,
+                             'a successful transfer changes nothing in the loop state: the remaining count is never reduced, the same region is transferred again and again')
+            else:
+                ck.broken('C17.b', fname + ':counter', where, 'cannot identify the remaining-count variable')
             return
         rk = rem[0]
         h_r = lmap[rk][0]
@@ -127,6 +137,15 @@ def retry_loop_rule(ck, u, eng, fname, paths, base_param, total_param):
                    'after %s octets moved the next transfer is again at %s: position advances by %s, not by the moved count (octets are overwritten / re-sent)'
                    % (fmt(res), fmt(pos1), adv))
     for p in exits:
+        lmap = p.loops[-1][1]
+        rem = [h for k, (h, pre) in lmap.items() if pre == total]
+        if len(rem) == 1:
+            z = L(rem[0])
+            done = eng.entails(p, z) and eng.entails(p, -z)
+            ck.verdict(done, 'C17.a', fname + ':exit-complete', cast.where(p.node) if p.node else where,
+                       'the loop is left only when nothing remains' if done else
+                       'the loop is left under {%s}, where the remaining count may still be positive: the function reports %s octets but moved fewer'
+                       % ('; '.join(fmt(c) for c in p.cond_terms()[-2:]), total_param))
         rv = strip_cast(p.ret)
         ok = rv == total
         ck.verdict(ok, 'C17.a', fname + ':complete', cast.where(p.node) if p.node else where,
@@ -143,6 +162,7 @@ def run(ck):
     ck.rule('C17.d', 'n == 0 or n > SSIZE_MAX is refused with -EINVAL before any driver call')
     ck.rule('C17.e', 'at-most variants perform exactly one driver-path call, contain no loop and return its result')
     ck.rule('C17.f', 'plumbing counts: what is put equals what was got, bounded by the request and by the auxiliary region; counted loops subtract the moved count and return n; drains stop at the first negative result and return it')
+    ck.rule('C17.h', 'kind / union-member agreement: constructors set kind and the matching driver member; every use of .octet/.chunk lies behind the matching test of kind')
     ck.rule('C17.g', 'buffer drivers delegate to byte_buffer_consume_at_most / byte_buffer_add with unchanged arguments')
     ck.not_decided += ['order / no duplication over whole driver scripts as such (induction over the position invariant)',
                        'sts_atmost_via_sink/_via_source buffer-extension paths beyond their count bounds']
@@ -174,9 +194,11 @@ def run(ck):
             retry_loop_rule(ck, u, eng, fn, P[fn], basep, totp)
     rule_d(ck, u, eng, P)
     rule_e(ck, u, eng, P)
-    rule_f(ck, u, ub, so, P)
+    rule_f(ck, u, ub, so, P, eng)
     rule_ext(ck, u, ub, so)
+    rule_atmost(ck, u, sym.Engine(u, sizeof=so, inline={'channel_has_buffer_ext'}, other_units=[ub]))
     rule_g(ck)
+    rule_h(ck, u, so, ub)
 
 
 def rule_d(ck, u, eng, P):
@@ -234,8 +256,11 @@ def rule_e(ck, u, eng, P):
                    'exactly one driver-path call with (buf, n), result returned' if bad is None else bad)
 
 
-def rule_f(ck, u, ub, so, P):
+def rule_f(ck, u, ub, so, P, engf):
     where = lambda fn: cast.where(u.fn(fn))
+
+    def eng_is_bool(k):
+        return (engf.types.get(k) or '').replace('const ', '').strip() in ('_Bool', 'bool')
     # sts_cbc
     if 'sts_cbc' in P:
         bad = None
@@ -260,45 +285,91 @@ def rule_f(ck, u, ub, so, P):
                     if not ok:
                         bad = 'octet put (%s) is not the octet got into %s' % (fmt(val), fmt(dst))
         ck.verdict(bad is None, 'C17.f', 'sts_cbc', where('sts_cbc'), 'one get then one put of the same octet; source error returned unchanged' if bad is None else bad)
-    # counted / drain loops over a step function
-    def counted(fn, step, step_bound_arg=None):
+    # counted loops over a step function, decided with the ghost quantity Moved (octets moved so far):
+    #   Moved = n - rest for a countdown variable, Moved = i for an index variable starting at 0
+    #   base Moved = 0; a step that reports k >= 0 octets raises Moved by exactly k (k = 1 for the octet step);
+    #   a step that is retried or failed leaves it; an iteration needs Moved < n and asks for at most n - Moved;
+    #   the loop is left on completion only with Moved == n, and n is returned
+    def counted(fn, step, step_bound_arg=None, unit=None):
         if fn not in P:
             return
+        n_ = ('v', 'n')
         bad = None
-        seen_err = seen_done = False
+        seen_err = seen_done = seen_prog = False
         for p in P[fn]:
+            if not p.loops:
+                bad = bad or 'path without the transfer loop: %s' % p.describe(3)
+                continue
+            lmap = p.loops[-1][1]
+            down = [(k, h) for k, (h, pre) in lmap.items() if pre == n_]
+            up = [(k, h) for k, (h, pre) in lmap.items() if pre == C(0) and not eng_is_bool(k)]
+            if len(down) == 1:
+                ck_, h = down[0]
+                moved = lambda v: L(n_) - L(v)
+            elif len(up) == 1:
+                ck_, h = up[0]
+                moved = lambda v: L(v)
+            else:
+                bad = 'no loop variable counts the octets moved (neither a countdown from n nor an index from 0)'
+                break
+            facts = engf.path_facts(p)
+            if len(down) != 1:
+                # index loops: i <= n is inductive (0 <= n; i < n gives i + 1 <= n) - proved here before it is used
+                ind = all(engf.entails(engf.path_facts(q) + [lin.le(L(q.loops[-1][1][ck_][0]), L(n_))],
+                                       L(q.mem.get(ck_, q.loops[-1][1][ck_][0])) - L(n_))
+                          for q in P[fn] if q.end == 'loopback' and q.loops and ck_ in q.loops[-1][1])
+                if ind:
+                    facts = facts + [lin.le(L(h), L(n_))]
             st = [e for e in p.calls() if e.name in step]
-            if p.end == 'return' and p.loops and not st:
+            if p.end == 'return' and not st:
                 seen_done = True
-                if strip_cast(p.ret) != ('v', 'n'):
+                z = moved(h) - L(n_)
+                if not (engf.entails(facts, z) and engf.entails(facts, -z)):
+                    bad = ('the loop is left under {%s} although fewer (or more) than n octets may have been moved'
+                           % '; '.join(fmt(c) for c in p.cond_terms()[-2:]))
+                if strip_cast(p.ret) != n_:
                     bad = 'returns %s after the loop, expected n' % fmt(p.ret)
-            if p.end == 'return' and st:
-                r = st[-1].result
-                if strip_cast(p.ret) == r and any(c == ('cmp', '<', r, C(0)) for c in p.cond_terms()):
+                continue
+            if not st:
+                continue
+            r = st[-1].result
+            if len(st) != 1:
+                bad = '%d steps in one iteration' % len(st)
+                continue
+            if not engf.entails(facts, moved(h) + 1 - L(n_)):
+                bad = 'a step is taken at %s although n octets may already have been moved' % st[0].where()
+            if step_bound_arg is not None:
+                d = L(strip_cast(st[0].args[step_bound_arg])) - (L(n_) - moved(h))
+                if not (d.is_const() and d.c == 0):
+                    bad = 'step is bounded by %s, not by the remaining count' % fmt(st[0].args[step_bound_arg])
+            if p.end == 'return':
+                if strip_cast(p.ret) == r and engf.entails(facts, L(r) + 1):
                     seen_err = True
                 else:
                     bad = 'in-loop return is not the negative step result'
-            if p.end == 'loopback' and st and step_bound_arg is not None:
-                lmap = p.loops[-1][1]
-                rem = [k for k, (h, pre) in lmap.items() if pre == ('v', 'n')]
-                if len(rem) != 1:
-                    bad = 'remaining-count variable not identified'
-                    continue
-                h = lmap[rem[0]][0]
-                if st[-1].args[step_bound_arg] != h:
-                    bad = 'step is bounded by %s, not by the remaining count' % fmt(st[-1].args[step_bound_arg])
-                after = p.mem.get(rem[0], h)
-                mv = L(h) - L(after)
-                progress = not (mv.is_const() and mv.c == 0)
-                if progress and not ((mv - L(st[-1].result)).is_const() and (mv - L(st[-1].result)).c == 0):
-                    bad = 'remaining count reduced by %s, step moved %s' % (mv, fmt(st[-1].result))
+                continue
+            after = p.mem.get(ck_, h)
+            mv = moved(after) - moved(h)
+            nonneg = engf.entails(facts, -L(r))
+            if nonneg:
+                seen_prog = True
+                want = L(r) if unit is None else Lin.const(unit)
+                if not ((mv - want).is_const() and (mv - want).c == 0):
+                    bad = ('after a step that moved %s octet(s) the count of moved octets changes by %s'
+                           % (fmt(r) if unit is None else unit, mv))
+            else:
+                if not (mv.is_const() and mv.c == 0):
+                    bad = 'the count of moved octets changes by %s on an iteration whose step did not report progress' % mv
         if not seen_err and bad is None:
             bad = 'no path returns a negative step result'
         if not seen_done and bad is None:
             bad = 'no completion path'
+        if not seen_prog and bad is None:
+            bad = 'no progress iteration'
         ck.verdict(bad is None, 'C17.f', fn, where(fn),
-                   'loop over %s: bounded by / reduced by the moved count, negative result returned unchanged, returns n' % '/'.join(sorted(step)) if bad is None else bad)
-    counted('sts_n_cbc', {'sts_cbc'})
+                   'loop over %s: Moved starts at 0, grows by exactly what each step moved, a step needs Moved < n%s, left only at Moved == n returning n; negative result returned unchanged'
+                   % ('/'.join(sorted(step)), ' and is bounded by n - Moved' if step_bound_arg is not None else '') if bad is None else bad)
+    counted('sts_n_cbc', {'sts_cbc'}, None, 1)
     counted('sts_n_aux', {'sts_atmost_aux'}, 3)
     counted('sts_n', {'sts_atmost', 'sts_atmost_via_source'}, 2)
 
@@ -384,8 +455,46 @@ def rule_f(ck, u, ub, so, P):
                 if strip_cast(p.ret) != g[0].result and p.ret != C(0):
                     bad = 'returns %s when nothing was delivered' % fmt(p.ret)
                     break
+                if not eng2.entails(facts, L(g[0].result)):
+                    bad = ('returns without a put under {%s} although the source may have delivered octets (result > 0): they are counted as moved but never reach the sink'
+                           % '; '.join(fmt(c) for c in p.cond_terms()[-2:]))
+                    break
         ck.verdict(bad is None, 'C17.f', fn + ':aux', where(fn),
                    'gets into the auxiliary window only, at most the bound, and puts exactly the delivered count from the same place' if bad is None else bad)
+
+
+def rule_atmost(ck, u, eng):
+    """sts_atmost: exactly one of the three plumbing routes moves octets"""
+    fn = 'sts_atmost'
+    if u.fn(fn) is None:
+        return ck.broken('C17.f', fn, '', 'function missing')
+    ck.function(fn)
+    ps = eng.paths(fn)
+    ck.analysed['paths'] += len(ps)
+    bad = None
+    routes = set()
+    for p in ps:
+        tr = [e for e in p.calls() if e.name in ('sts_cbc', 'sts_atmost_via_sink', 'sts_atmost_via_source')]
+        names = [e.name for e in tr]
+        if not tr:
+            bad = 'path without a transfer: %s' % p.describe(3)
+            continue
+        for e in tr:
+            want = [('v', 'source'), ('v', 'sink')] + ([('v', 'n')] if e.name != 'sts_cbc' else [])
+            if list(e.args) != want:
+                bad = '%s is called with (%s)' % (e.name, ', '.join(fmt(a) for a in e.args))
+        if strip_cast(p.ret) != tr[-1].result:
+            bad = 'the result of the last route taken (%s) is not what is returned' % names[-1]
+        for e in tr[:-1]:
+            # an earlier route may be followed by another one only if it certainly moved nothing: result < 0
+            if not eng.entails(p, L(e.result) + 1):
+                bad = ('%s is followed by %s on a path where it may have moved octets (its result is not known to be negative): '
+                       'up to twice the requested count is moved and only the second count reported' % (e.name, names[names.index(e.name) + 1]))
+        routes.add(tuple(names))
+    if bad is None and routes != {('sts_cbc',), ('sts_atmost_via_sink',), ('sts_atmost_via_sink', 'sts_atmost_via_source')}:
+        bad = 'routes taken: %s' % sorted(routes)
+    ck.verdict(bad is None, 'C17.f', fn, cast.where(u.fn(fn)),
+               'octet-by-octet without buffer extension; otherwise via the sink buffer, and via the source buffer only after the first route failed (negative result)' if bad is None else bad)
 
 
 def rule_ext(ck, u, ub, so):
@@ -442,6 +551,91 @@ def rule_ext(ck, u, ub, so):
                 bad = bad or 'does not return the count moved into the sink buffer'
         ck.verdict(bad is None and ntr >= 2, 'C17.f', fn, cast.where(u.fn(fn)),
                    'transfers into/out of the exposed window only, 1 <= count <= min(window, n) (window when n == 0), forwards exactly what it got' if bad is None and ntr >= 2 else (bad or 'transfers not found'))
+
+
+def rule_h(ck, u, so, ub):
+    """C17.h  kind / union-member agreement: the endpoint unions hold an octet driver or a chunk driver, told apart
+    only by `kind`.  Constructors must set both consistently and every use of a member must lie on a path where
+    `kind` selects that member (the driver is otherwise called through the wrong function-pointer type and with the
+    wrong arguments, whatever it then moves)."""
+    E = u.enums
+    OCT, CHK = E.get('DATA_KIND_OCTET'), E.get('DATA_KIND_CHUNK')
+    if OCT is None or CHK is None:
+        return ck.broken('C17.h', 'DataKind', '', 'enumerators not found')
+    eng = sym.Engine(u, sizeof=so, inline=set(), other_units=[ub])
+    for fn, un, member, kindv in (('octet_source_init', 'source', 'octet', OCT), ('chunk_source_init', 'source', 'chunk', CHK),
+                                  ('octet_sink_init', 'sink', 'octet', OCT), ('chunk_sink_init', 'sink', 'chunk', CHK)):
+        if u.fn(fn) is None:
+            ck.broken('C17.h', fn, '', 'function missing')
+            continue
+        ck.function(fn)
+        ps = eng.paths(fn)
+        ck.analysed['paths'] += len(ps)
+        inst = ('v', u.params(fn)[0]['name'])
+        drvp = ('v', u.params(fn)[1]['name'])
+        ctxp = ('v', u.params(fn)[2]['name'])
+        bad = None
+        for p in ps:
+            st = {}
+            for e in p.stores():
+                st[fmt(e.name)] = e.args[0]
+            kind = st.get('%s->kind' % inst[1])
+            mem = st.get('%s->%s.%s' % (inst[1], un, member))
+            other = [k for k in st if k.startswith('%s->%s.' % (inst[1], un)) and not k.endswith('.' + member)]
+            if kind != C(kindv):
+                bad = 'kind is set to %s, expected %s' % (fmt(kind) if kind else 'nothing', 'DATA_KIND_OCTET' if kindv == OCT else 'DATA_KIND_CHUNK')
+            elif strip_cast(mem) != drvp if mem is not None else True:
+                bad = 'the %s driver is not stored in .%s.%s' % (member, un, member)
+            elif other:
+                bad = 'also stores %s' % other[0]
+            elif st.get('%s->driver' % inst[1]) != ctxp:
+                bad = 'driver context not stored'
+        ck.verdict(bad is None, 'C17.h', fn, cast.where(u.fn(fn)),
+                   'sets kind, the matching union member and the driver context' if bad is None else bad)
+    # uses
+    nuse = 0
+    for fn in sorted(u.functions):
+        f = u.fn(fn)
+        if not (cast.node_file(f) or '').endswith('endpoints/core.c') or u.body(fn) is None:
+            continue
+        try:
+            ps = eng.paths(fn)
+        except (sym.Unsupported, sym.PathLimit):
+            continue
+        bad = None
+        uses = 0
+        for p in ps:
+            for e in p.effects:
+                if e.kind not in ('call', 'icall'):
+                    continue
+                terms = []
+                if e.kind == 'icall' and e.chain and len(e.chain) >= 3 and e.chain[-1] in ('octet', 'chunk') and e.chain[-2] in ('source', 'sink'):
+                    terms.append((e.chain[-1], e.chain[-2], e.extra if False else None))
+                for a in e.args:
+                    a0 = strip_cast(a)
+                    if a0[0] == 'f' and a0[2] in ('octet', 'chunk') and a0[1][0] == 'f' and a0[1][2] in ('source', 'sink'):
+                        terms.append((a0[2], a0[1][2], a0[1][1]))
+                for member, un, base in terms:
+                    uses += 1
+                    kv = OCT if member == 'octet' else CHK
+                    ov = CHK if member == 'octet' else OCT
+                    sel = False
+                    for c in p.cond_terms():
+                        k0 = strip_cast(c[2]) if c[0] == 'cmp' else None
+                        if k0 is not None and ((k0[0] == 'f' and k0[2] == 'kind') or (k0[0] == 'h' and str(k0[1]).endswith('->kind'))) and sym.is_c(c[3]):
+                            if (c[1] == '==' and c[3][1] == kv) or (c[1] == '!=' and c[3][1] == ov):
+                                sel = True
+                            if (c[1] == '==' and c[3][1] == ov) or (c[1] == '!=' and c[3][1] == kv):
+                                sel = 'wrong'
+                    if sel is not True:
+                        bad = ('the .%s.%s driver is used at %s on a path where kind %s' %
+                               (un, member, e.where(), 'selects the other member' if sel == 'wrong' else 'has not been tested'))
+        if uses:
+            nuse += uses
+            ck.function(fn)
+            ck.verdict(bad is None, 'C17.h', fn + ':dispatch', cast.where(f),
+                       'every use of a driver member lies behind the matching test of kind' if bad is None else bad)
+    ck.floor('C17.h', 'uses of the driver union members', nuse, 8)
 
 
 def rule_g(ck):
